@@ -9,14 +9,14 @@ import sys
 
 ROOT = os.path.dirname(os.path.dirname(os.path.abspath(__file__)))
 rows = []
-for d in sorted(glob.glob('/tmp/mut-C*/[0-9]*')) + sorted(glob.glob('/tmp/mut2-C*/[0-9]*')) + sorted(glob.glob('/tmp/mut3-C*/[0-9]*')):
+for d in sorted(glob.glob('/tmp/mut-C*/[0-9]*')) + sorted(glob.glob('/tmp/mut2-C*/[0-9]*')) + sorted(glob.glob('/tmp/mut3-C*/[0-9]*')) + sorted(glob.glob('/tmp/mut5-C*/[0-9]*')):
     ev = os.path.join(d, 'eval.json')
     if not os.path.exists(ev):
         continue
     e = json.load(open(ev))
     m = json.load(open(os.path.join(d, 'meta.json')))
     ok = e.get('patch_applies') and e.get('suite_passes_with_patch') and e.get('demo_fails_with_patch') and e.get('demo_passes_without_patch')
-    name = '%s-%s%s' % (m['property'], ('r2-' if '/mut2-' in d else ('r3-' if '/mut3-' in d else '')), os.path.basename(d))
+    name = '%s-%s%s' % (m['property'], ('r2-' if '/mut2-' in d else ('r3-' if '/mut3-' in d else ('r5-' if '/mut5-' in d else ''))), os.path.basename(d))
     if not ok and '--all' not in sys.argv:
         print('NOT CONFIRMED', name, {k: e.get(k) for k in ('patch_applies', 'suite_passes_with_patch', 'demo_fails_with_patch', 'demo_passes_without_patch')})
         continue
@@ -38,7 +38,7 @@ for d in sorted(glob.glob('/tmp/mut-C*/[0-9]*')) + sorted(glob.glob('/tmp/mut2-C
         'needs': m.get('needs'),
         'demo_cmd': e.get('demo_cmd'),
         'origin': ('written by a fresh sub-agent that saw only the property text and a scratch worktree of /repo'
-                   + ('; round 2: the agent was additionally told, in general terms, which kinds of inputs and configurations a monitor would already cover, and asked for changes that need something more specific' if '/mut2-' in d else ('; round 3: as round 2, and asked for changes made of two cooperating edits or depending on a rare internal intermediate value' if '/mut3-' in d else ''))),
+                   + ('; round 2: the agent was additionally told, in general terms, which kinds of inputs and configurations a monitor would already cover, and asked for changes that need something more specific' if '/mut2-' in d else ('; round 3: as round 2, and asked for changes made of two cooperating edits or depending on a rare internal intermediate value' if '/mut3-' in d else ('; round 5: told which digit counts, operand families and build modes the harness covers, and asked for changes failing on fewer than one in 10^5 structured inputs or only on an unusual configuration / entry point / build mode' if '/mut5-' in d else '')))),
         'confirmed_by_me': {'how': 'tools/eval_mutant.py in a fresh scratch worktree of /repo HEAD: git apply patch.diff; cargo nextest run --workspace --offline (pinned suite); '
                                    'cargo build --features numtraits,rand; demo with and without the patch; then ./check <id> quick with VERIF_REPO=<worktree>',
                             'patch_applies': e.get('patch_applies'), 'suite_passes_with_patch': e.get('suite_passes_with_patch'), 'suite_summary': e.get('suite'),
@@ -48,6 +48,15 @@ for d in sorted(glob.glob('/tmp/mut-C*/[0-9]*')) + sorted(glob.glob('/tmp/mut2-C
     }
     json.dump(meta, open(os.path.join(out, 'meta.json'), 'w'), indent=1)
     rows.append((name, m.get('summary', '')[:160].replace('\n', ' '), ', '.join('%s: %s' % kv for kv in caught.items())))
+# the index lists everything under seeded/, also the changes collected in earlier sessions whose /tmp directories are gone
+have = {r[0] for r in rows}
+for mp in sorted(glob.glob(os.path.join(ROOT, 'seeded', '*', 'meta.json'))):
+    name = os.path.basename(os.path.dirname(mp))
+    if name in have:
+        continue
+    m = json.load(open(mp))
+    rows.append((name, (m.get('summary') or '')[:160].replace('\n', ' '), ', '.join('%s: %s' % (c, v['verdict']) for c, v in m.get('checks', {}).items())))
+rows.sort()
 with open(os.path.join(ROOT, 'seeded', 'INDEX.md'), 'w') as f:
     f.write('| seeded change | what it does | verdict of the checks run against it |\n|---|---|---|\n')
     for r in rows:
